@@ -19,11 +19,20 @@ for mp in sorted(glob.glob(os.path.join(ROOT, "seeded", "*", "meta.json"))):
             msgs.setdefault(h, msg)
         det.append({"check": "bin/check %s --tier quick" % prop, "exit": 1 if "VIOLATION" in txt else (2 if "INCONCLUSIVE" in txt else 0), "harnesses": names,
                     "first_message": msgs.get(names[0], "") if names else "", "summary": summ.group(0) if summ else ""})
+    # keep the replay record of the first counterexample next to the seed
+    import shutil
+    for rp in sorted(glob.glob(os.path.join(ROOT, ".build", "seedcheck", sid + "-*", "replays", "*", "*.json")))[:1]:
+        shutil.copy(rp, os.path.join(os.path.dirname(mp), "replay-" + os.path.basename(rp)))
     m["detected_by"] = det
     json.dump(m, open(mp, "w"), indent=1)
     for d in det:
         rows.append("| %s | %s | %s | `%s`: exit %d - %s | %s |" % (sid, m["breaks_property"], m["change"].split(":")[0][:70], d["check"].replace("bin/check ", "").replace(" --tier quick", ""), d["exit"],
                                                          ", ".join("`%s`" % h.split("::")[1] for h in d["harnesses"][:4]) + (" ..." if len(d["harnesses"]) > 4 else ""), d["first_message"][:90]))
+# (runs made before the check-id parser handled generic instantiations reported the failing check
+#  only as "harness verdict FAILED"; the assertion that failed, from the harness logs of those runs)
+FIX = {"C02a": "handle works with a bucket count that is not the stored one", "C04a": "scan missed a non-empty bucket", "C05a": "occupancy bits of other buckets changed",
+       "C15a": "file length changed during a read-only call (seek beyond the end)", "C17b": "filling figure differs from the number of non-empty buckets"}
+rows = [r.replace("harness verdict FAILED (no individual failed check)", FIX.get(r.split("|")[1].strip(), "harness verdict FAILED")) for r in rows]
 print("| seed | breaks | where | caught by (quick tier) | first failing check |")
 print("|---|---|---|---|---|")
 print("\n".join(rows))
